@@ -20,14 +20,16 @@ type verifTOCDecompressor struct{ toc *estargz.JTOC }
 var errVerifModel = errors.New("verif: model error")
 
 func (d *verifTOCDecompressor) Reader(r io.Reader) (io.ReadCloser, error) { return nil, errVerifModel }
-func (d *verifTOCDecompressor) FooterSize() int64                       { return 0 }
+func (d *verifTOCDecompressor) FooterSize() int64                         { return 0 }
 func (d *verifTOCDecompressor) ParseFooter(p []byte) (int64, int64, int64, error) {
 	return -1, -1, 0, nil
 }
 func (d *verifTOCDecompressor) ParseTOC(r io.Reader) (*estargz.JTOC, digest.Digest, error) {
 	return d.toc, "sha256:toc", nil
 }
-func (d *verifTOCDecompressor) DecompressTOC(r io.Reader) (io.ReadCloser, error) { return nil, errVerifModel }
+func (d *verifTOCDecompressor) DecompressTOC(r io.Reader) (io.ReadCloser, error) {
+	return nil, errVerifModel
+}
 
 type verifZeros struct{}
 
